@@ -353,6 +353,7 @@ private:
                 // add edge to spanner
                 Edge spanner_e = std::get<0>(
                         boost::add_edge(spanner_v, spanner_u, _spanner));
+                boost::put(boost::edge_weight, _spanner, spanner_e, boost::get(_weight_map, e));
                 _edge_spanner_to_g[spanner_e] = e;
             } else {
                 // record missing edge from spanner
